@@ -22,6 +22,8 @@ ObsInit(SeriesSet) ==
   [ last   |-> [s \in SeriesSet |-> 0],   \* id of the last point of the series handed to Dispatch
     pairs  |-> {},                          \* points handed to Dispatch
     called |-> {},                          \* their ids
+    retd   |-> {},                          \* ids whose Dispatch call has returned (a call parked on a full queue of a
+                                            \* blocking route has not: its point is not in the buffer yet)
     accd   |-> {},                          \* ids known accepted (Dispatch returned, counter unchanged)
     dropd  |-> {},                          \* ids known dropped (counter went up during the call)
     posted |-> {},                          \* ids seen in any POST
@@ -44,7 +46,8 @@ ORet(o, id, st, slow, blocking, where) ==
   LET v1 == V(o, slow /\ ~blocking, "NonBlockingNeverBlocks", where)
       v2 == IF st = "drop" /\ blocking THEN v1 \cup {<<"BlockingNeverDrops", where>>} ELSE v1
       v3 == IF st = "drop" /\ id \in o.posted THEN v2 \cup {<<"DropsCounted", where>>} ELSE v2
-  IN [o EXCEPT !.accd = IF st = "acc" THEN @ \cup {id} ELSE @,
+  IN [o EXCEPT !.retd = @ \cup {id},
+               !.accd = IF st = "acc" THEN @ \cup {id} ELSE @,
                !.dropd = IF st = "drop" THEN @ \cup {id} ELSE @,
                !.viol = v3]
 
@@ -77,24 +80,30 @@ OPost(o, body, st, where) ==
                                !.viol = IF sc.ok THEN v2 ELSE v2 \cup {<<"SeriesOrder", where>>}]
              ELSE [o EXCEPT !.posted = @ \cup ids, !.failed = @ \cup {body}, !.viol = v2]
 
-\* the observer waited for everything accepted to be acknowledged (ok = it happened before the deadline)
+\* the observer waited for everything accepted to be acknowledged (ok = it happened before the deadline);
+\* a blocking route never drops: every call that returned has put its point into the buffer
 OQuiesce(o, ok, blocking, where) ==
-  [o EXCEPT !.viol = V(o, ~ok \/ ~(o.accd \subseteq o.acked) \/ (blocking /\ ~(o.called \subseteq o.acked)),
+  [o EXCEPT !.viol = V(o, ~ok \/ ~(o.accd \subseteq o.acked) \/ (blocking /\ ~(o.retd \subseteq o.acked)),
                        "AckedAtLeastOnce", where)]
 
 OSdCall(o, where) == [o EXCEPT !.sd = "called", !.viol = V(o, o.sd # "no", "Harness", where)]
 
-\* Shutdown returned: everything accepted before the call has been acknowledged
+\* Shutdown returned: everything accepted so far (every Dispatch call that has returned, before or while Shutdown
+\* ran) has been acknowledged.  Calls still parked on a full queue are not accepted and not judged.
 OSdRet(o, blocking, where) ==
   [o EXCEPT !.sd = "returned",
-            !.viol = V(o, ~(o.accd \subseteq o.acked) \/ (blocking /\ ~(o.called \subseteq o.acked)),
+            !.viol = V(o, ~(o.accd \subseteq o.acked) \/ (blocking /\ ~(o.retd \subseteq o.acked)),
                        "AllBufferedFlushed", where)]
+
+\* the driver's count of Dispatch calls that are still parked when the execution ends (not judged; the count must
+\* agree with the ret events)
+OBlocked(o, n, where) == [o EXCEPT !.viol = V(o, n # Cardinality(o.called \ o.retd), "Harness", where)]
 
 OSdTimeout(o, where) == [o EXCEPT !.sd = "timeout", !.viol = @ \cup {<<"ShutdownReturns", where>>}]
 
 \* end of the execution (after Shutdown returned, or after a successful wait): drops = delta of the queue_full counter
 OFinal(o, drops, blocking, where) ==
-  LET never == Cardinality(o.called \ o.acked)
+  LET never == Cardinality(o.retd \ o.acked)       \* handed over (the call returned) and never acknowledged
       v1 == V(o, blocking /\ drops # 0, "BlockingNeverDrops", where)
       v2 == IF never > drops THEN v1 \cup {<<"AckedAtLeastOnce", where>>} ELSE v1   \* accepted (not counted as dropped) but never acknowledged
       v3 == IF never < drops \/ Cardinality(o.dropd) > drops THEN v2 \cup {<<"DropsCounted", where>>} ELSE v2
